@@ -143,9 +143,12 @@ type c04cfg struct {
 	senders int
 	rounds  int
 	focus   uint16 // 0: global search; otherwise only deliveries to this party branch
-	same    bool   // all senders broadcast byte-identical payloads
-	zero    bool   // identifiers 0..n-1
-	t       int    // key-generation threshold below n (0: n)
+	// pair: two senders with explicit (identifier, round) values (C13's slice: every pair of distinct
+	// (identifier, round) combinations keeps its own bookkeeping slot)
+	pair [4]int // ida, ra, idb, rb (all zero: unused)
+	same bool   // all senders broadcast byte-identical payloads
+	zero bool   // identifiers 0..n-1
+	t    int    // key-generation threshold below n (0: n)
 }
 
 func (k c04cfg) String() string {
@@ -164,6 +167,9 @@ func (k c04cfg) String() string {
 	}
 	if k.t != 0 {
 		op += fmt.Sprintf("t%d-", k.t)
+	}
+	if k.pair != [4]int{} {
+		return fmt.Sprintf("%spair-%d.r%d-%d.r%d", op, k.pair[0], k.pair[1], k.pair[2], k.pair[3])
 	}
 	return fmt.Sprintf("%sN%d-%dx%d-f%d", op, k.n, k.senders, k.rounds, k.focus)
 }
@@ -196,6 +202,14 @@ func c04case(k c04cfg) harness.Case {
 			}
 			return byte(id)
 		}
+		if k.pair != [4]int{} {
+			third := uint16(5)
+			for third == uint16(k.pair[0]) || third == uint16(k.pair[2]) {
+				third++
+			}
+			ids = []uint16{uint16(k.pair[0]), uint16(k.pair[2]), third}
+			sort.Slice(ids, func(i, j int) bool { return ids[i] < ids[j] })
+		}
 		cfg := rcfg{Sign: k.sign, Participants: ids, Honest: ids, All: ids, T: k.t}
 		var init []Event
 		type bc struct {
@@ -203,7 +217,13 @@ func c04case(k c04cfg) harness.Case {
 			r uint8
 		}
 		var bcs []bc
-		for si := 0; si < k.senders; si++ {
+		if k.pair != [4]int{} {
+			for _, x := range [][2]int{{k.pair[0], k.pair[1]}, {k.pair[2], k.pair[3]}} {
+				init = append(init, Event{Kind: 'S', From: uint16(x[0]), Bcast: true, Data: string(bcastBody(uint8(x[1]), tagOf(uint16(x[0]))))})
+				bcs = append(bcs, bc{uint16(x[0]), uint8(x[1])})
+			}
+		}
+		for si := 0; si < k.senders && k.pair == [4]int{}; si++ {
 			for r := 1; r <= k.rounds; r++ {
 				init = append(init, Event{Kind: 'S', From: ids[si], Bcast: true, Data: string(bcastBody(uint8(r), tagOf(ids[si])))})
 				bcs = append(bcs, bc{ids[si], uint8(r)})
@@ -211,6 +231,9 @@ func c04case(k c04cfg) harness.Case {
 		}
 		// every party sends one point-to-point message to its successor
 		for i, id := range ids {
+			if k.pair != [4]int{} {
+				break // the pair cases are about the bookkeeping of the two broadcasts only
+			}
 			to := ids[(i+1)%len(ids)]
 			init = append(init, Event{Kind: 'S', From: id, To: to, Bcast: false, Data: string(p2pBody(0, byte(id)))})
 		}
@@ -234,6 +257,9 @@ func c04case(k c04cfg) harness.Case {
 		}
 		reported := map[string]bool{}
 		report := func(clause, sig, detail string, hist []Event) {
+			if relabel != "" {
+				sig = strings.ToLower(relabel) + "-id-round-pair:" + sig
+			}
 			c.Add("violating_states:"+sig, 1)
 			if reported[sig] {
 				return
@@ -280,6 +306,9 @@ func c04case(k c04cfg) harness.Case {
 				}
 			}
 			for i, id := range ids {
+				if k.pair != [4]int{} {
+					break
+				}
 				to := ids[(i+1)%len(ids)]
 				if cnt[HO{At: to, From: id, Bcast: false, Payload: string(p2pBody(0, byte(id)))}] != 1 {
 					report("totality-p2p", "c04-p2p-not-handed-over", fmt.Sprintf("point-to-point %d->%d handed over %d times", id, to, cnt[HO{At: to, From: id, Bcast: false, Payload: string(p2pBody(0, byte(id)))}]), hist)
@@ -627,6 +656,26 @@ func gen(c *harness.C) []harness.Case {
 	if os.Getenv("VERIF_FAMILY") == "conc" {
 		return concCases(c, prop)
 	}
+	if os.Getenv("VERIF_FAMILY") == "pairs" {
+		// every pair of distinct (identifier, round) combinations over boundary values of both:
+		// decimal / byte / bit patterns that could collide in a bookkeeping key or on the wire
+		idv := []int{1, 11, 2, 25, 12, 255, 256, 257, 6553, 65535}
+		rv := []int{1, 2, 5, 6, 12, 51, 56, 100, 127}
+		if !c.Thorough() {
+			rv = []int{1, 2, 6, 12, 51, 56, 127}
+		}
+		var all []harness.Case
+		for i, a := range idv {
+			for _, b := range idv[i+1:] {
+				for _, ra := range rv {
+					for _, rb := range rv {
+						all = append(all, c04case(c04cfg{pair: [4]int{a, ra, b, rb}}))
+					}
+				}
+			}
+		}
+		return all
+	}
 	switch prop {
 	case "C04":
 		c.Note("rule", "explicit-state DFS over all delivery orders of in-flight messages of real Schemes (any-order network), dedup on canonical dump of receivers' private state + in-flight multiset + hand-overs; f0 = global exact search, fK = only deliveries to party K branch (others eager). distinct_nontrivial = distinct quiescent histories")
@@ -705,6 +754,9 @@ func gen(c *harness.C) []harness.Case {
 		for _, b := range bs {
 			if relabel != "" && b.outsider == 0 && b.unknown == 0 {
 				continue
+			}
+			if relabel == "C05" && b.sign {
+				continue // key generation sessions only
 			}
 			n := len(b.actions())
 			if b.script != "" {
